@@ -159,6 +159,98 @@ def _solve_obligation(ob: dict[str, Any], str_bound: int, timeout: float) -> Obl
     return o
 
 
+def _regdep_obligations(str_bound: int, timeout: float) -> list[Obligation]:
+    """REGDEP: content_id does not depend on what the registry holds.  The registry is an
+    environment: every lookup under the (symbolic) id being computed may miss or hit an arbitrary
+    registered node.  When the code consults it before content_id is assigned and then copies the
+    hit node's content_id, the solver is asked whether two nodes of the class with equal id
+    pre-images can have different content pre-images (free-form origin fqn included); a model is
+    replayed against the real constructor with the first node kept registered."""
+    from pyoak.origin import URI_DELIM
+    from src2smt import emit, solvers
+    from src2smt.pe import Unencodable, free_vars, preimage_variants
+
+    out = []
+    for name, m in Z_MODELS.items():
+        kinds = m["kinds"][0]
+        layout = {k: (None if v in (None, "one") else 0) for k, v in m["layouts"][-1].items()}
+        reset_all()
+        o = Obligation(f"REGDEP:{name}", "Z", "inconclusive", solver="syntactic (environment decisions met before content_id is assigned)", queries=0)
+        try:
+            skel = _skeleton(name, layout)
+        except Exception:  # noqa: BLE001 -- a class with a required child: the childless layout does not exist
+            continue
+        try:
+            variants = preimage_variants(CLASSES[name], skel, kinds, "L")
+            base = variants[0]
+            twins = [v for v in variants if v.content_kind == "twin"]
+            unknown = [v for v in variants if v.content_kind == "unknown" or (v.content_kind == "own" and v.content != base.content)]
+            o.detail = {"registry_answers_explored": [[a for _, a in v.env_trace] for v in variants], "content_id_source": [v.content_kind for v in variants]}
+            if unknown:
+                o.detail["reason"] = "content_id takes a value the translator cannot relate to the node's content under some registry answer"
+            elif not twins:
+                o.status = "discharged"
+            else:
+                T = _pre(name, kinds, layout, "R")
+                lines = ["(set-logic QF_SLIA)", "(set-option :produce-models true)"]
+                seen: set[str] = set()
+                for v in free_vars(base.ident) + free_vars(T.ident) + free_vars(base.content) + free_vars(T.content):
+                    if v.name not in seen:
+                        seen.add(v.name)
+                        lines += emit.declare(v, str_bound, 2 * int(base.digest_size))
+                        if v.kind == "fqn":
+                            lines.append(f"(assert (str.contains {v.name} {emit.smt_str(URI_DELIM)}))")
+                lines.append(f"(assert (= {emit.term(base.ident)} {emit.term(T.ident)}))")
+                lines.append(f"(assert (not (= {emit.term(base.content)} {emit.term(T.content)})))")
+                lines += ["(check-sat)", "(get-model)"]
+                res = solvers.solve(o.name, "\n".join(lines) + "\n", min(timeout, 30), cross_timeout=8)
+                o.solver, o.queries, o.seconds = f"cvc5={res['cvc5']}({res['cvc5_s']}s) z3={res['z3']}({res['z3_s']}s)", 2, res["seconds"]
+                if res["verdict"] == "unsat":
+                    o.status = "discharged"  # a registered node with this id has this content: copying its digest is sound
+                elif res["verdict"] == "sat":
+                    model = emit.parse_model(res["model_text"])
+                    o.status, o.signature = "violated", f"content_id-copied-from-registered-node-with-colliding-id-text:{name}"
+                    o.detail.update(model=model)
+                    o.replay = {"regdep": {"cls": name, "kinds": kinds, "layout": layout}, "model": model}
+                else:
+                    o.detail.update(verdict=res["verdict"], raw=res["raw"])
+        except Unencodable as ex:
+            o.status, o.detail = "error", {"unencodable": str(ex)}
+        out.append(o)
+    return out
+
+
+def _replay_regdep(payload) -> tuple[bool, str]:
+    from pyoak.origin import URI_DELIM, MemoryTextSource, XMLFileOrigin, XMLPath
+
+    spec, model = payload["regdep"], payload["model"]
+    cls = CLASSES[spec["cls"]]
+
+    def kwargs(tag: str) -> dict[str, Any]:
+        kw: dict[str, Any] = {}
+        for k, kind in spec["kinds"].items():
+            if kind == "none":
+                kw[k] = None
+            else:
+                raw = model.get(f"{tag}_{k}", {"str": "", "int": "0", "bool": "False"}[kind])
+                kw[k] = int(raw) if kind == "int" else ((raw == "True") if kind == "bool" else raw)
+        for f, how in spec["layout"].items():
+            kw[f] = None if how is None else ()
+        uri, _, path = model.get(f"{tag}_self_ofqn", URI_DELIM).partition(URI_DELIM)
+        kw["origin"] = XMLFileOrigin(MemoryTextSource(_raw="", source_uri=uri), XMLPath(path))
+        return kw
+
+    reset_all()
+    alone = cls(**kwargs("L"))
+    expected = alone.content_id
+    alone = None
+    reset_all()
+    registered = cls(**kwargs("R"))
+    node = cls(**kwargs("L"))
+    text = f"registered first: {registered!r}\nthen: {node!r}\ncontent_id with the first one registered: {node.content_id}; built alone: {expected}; ids: {registered.id} / {node.id}"
+    return node.content_id != expected, text
+
+
 def _frame_obligations() -> list[Obligation]:
     """Syntactic FRAME obligations on the generated terms."""
     from dataclasses import fields
@@ -214,6 +306,7 @@ def _validate_translator() -> list[str]:
         pre = _pre(cls_name, kinds, layout, "V")
         sk = _skeleton(cls_name, layout)
         kw = {f: getattr(sk, f) for f in layout}
+        sk = None  # no equal node is registered while the real constructor is observed
         old = N.hashlib
         N.hashlib = _Spy()
         try:
@@ -227,10 +320,12 @@ def _validate_translator() -> list[str]:
             real = getattr(node, f) if i is None else getattr(node, f)[i]
             vals[ch.content_id.name] = real.content_id
             vals[ch.origin.fqn.name] = real.origin.fqn
-        want_c, want_i = recorded[0].decode(), recorded[1].decode()
+        # the order of the two digest computations is the code's business: both terms must be
+        # among the byte strings the real constructor hashed, and it must have hashed nothing else
+        real = sorted(r.decode() for r in recorded)
         got_c, got_i = evaluate(pre.content, vals), evaluate(pre.ident, vals)
-        if (want_c, want_i) != (got_c, got_i):
-            errors.append(f"translator validation failed for {cls_name}: real={want_c!r} term={got_c!r}")
+        if real != sorted([got_c, got_i]):
+            errors.append(f"translator validation failed for {cls_name}: real={real!r} terms={[got_c, got_i]!r}")
     return errors
 
 
@@ -243,7 +338,7 @@ def _z_runner(tier: str, seed: int, workers: int) -> list[Obligation]:
     specs = z_obligation_specs(tier)
     bound = 24 if tier == "quick" else 40
     timeout = 90 if tier == "quick" else 400
-    obs = _frame_obligations()
+    obs = _frame_obligations() + _regdep_obligations(bound, timeout)
     with ThreadPoolExecutor(max_workers=max(1, workers // 2)) as ex:
         obs += list(ex.map(lambda ob: _solve_obligation(ob, bound, timeout), specs))
     return obs
@@ -257,6 +352,8 @@ def replay_obligation(payload):
     if "frame" in payload:
         o = [x for x in _frame_obligations() if x.name == f"FRAME:{payload['frame']}"][0]
         return o.status == "violated", f"free variables: {o.detail}"
+    if "regdep" in payload:
+        return _replay_regdep(payload)
     ob, model = payload["ob"], payload["model"]
     leaves: dict[str, Any] = {}
 
